@@ -1,6 +1,7 @@
 import CV.Proofs.QuantExamples
 import CV.Proofs.QuantCatLink
 import CV.Proofs.QuantNoUb
+import CV.Proofs.QuantPerfect
 /-!
 # C20 (component `quant`): no unsafe precondition of the float-derived models is reachable
 
@@ -107,8 +108,22 @@ theorem C20_lazy_no_fault {B P n : Nat} {h : Nat → Nat} {k0 : Nat → Nat} (hP
 example := C20_lazy_no_fault (B := 16) (P := 12) (n := 4) (h := exH) (k0 := fun _ => 1)
   (by decide) (by decide) (by decide) (by decide) exTBF1 (by rw [exFree]; exact exTBF2)
 
+/-- **C20, `…_perfect` constructors, first pass**: for every table of at most `2^P` entries (of any
+    float type, with any values) the rejection logic and the first distribution pass end in
+    `rejected` or `proceeds`, never in an overflow of `current_free_weight + 1` or of the
+    subtraction from the remaining free weight — for any float semantics -/
+theorem C20_perfect_first_pass_no_fault {F : Type} (o : FOps F) (toF64 : F → Float) {B P : Nat}
+    (hPB : P ≤ B) (probs : List F) (hn : probs.length ≤ 2 ^ P) :
+    perfectPre o toF64 B P probs = .rejected ∨ perfectPre o toF64 B P probs = .proceeds :=
+  perfectPre_no_fault o toF64 hPB probs hn
+
+example : perfectPre f64Ops id 16 12 ([0x3ff0000000000000, 0x4000000000000000].map f64Ops.ofBits)
+    = .rejected ∨ perfectPre f64Ops id 16 12 ([0x3ff0000000000000, 0x4000000000000000].map f64Ops.ofBits) = .proceeds :=
+  C20_perfect_first_pass_no_fault f64Ops id (by decide) _ (by decide)
+
 end CV.Quant
 
+#print axioms CV.Quant.C20_perfect_first_pass_no_fault
 #print axioms CV.Quant.C20_leaky_no_ub_for_any_distribution
 #print axioms CV.Quant.C20_leaky_dec_no_fault
 #print axioms CV.Quant.C20_leaky_table_no_fault
